@@ -34,6 +34,8 @@ def run(tier, rep):
         rep.violation({"property": "C17", "key": "retention-grows:" + str(ev.get("case")), "kind": "b2",
                        "summary": "%s: the tree reachable from the k-th record grows with k: %s" % (ev.get("case"), sizes[:4] + sizes[-3:]),
                        "case": ev.get("case"), "sizes": sizes})
+    # the Release / Read discipline between ingester and FormatReader, on recorded call sequences of all seven readers
+    vlib.ingester_protocol(rep, "C17", thorough)
     rep.cov["rule"] = ("26 cases over all formats (compact, whitespace/blank-line separators, nested groups, records failing the filter, records whose transform fails), k = 3000 / "
                        "200000 records streamed through the real Transform; sizes probed at k<=16, powers of two, every 1000th; TLC (Trace_Retention) "
                        "requires size_k <= max(size_1..size_8). non-trivial: >=100 deliveries with separators or filtered-out records")
